@@ -205,6 +205,32 @@ def run {σ χ : Type} (M : ModelOps σ χ α) : List (Op χ α) → Explorer α
     let rest := run M ops st.explorer st.model
     (r :: rest.1, rest.2)
 
+/-- what one proposal of a `run` was decided on: how many `CoolDown`s preceded it, the coolant's
+temperature at that moment, the model's verdict on the proposed state, the change the model
+reports for it, the uniform draw on offer, and the decision `tryRandomChange` took -/
+structure StepView (α : Type) where
+  cools       : Nat
+  temperature : α
+  valid       : Bool
+  change      : α
+  draw        : α
+  decision    : Decision α
+
+/-- the same threading as `run`, recording per proposal what it was decided on (`n` = number of
+cool-downs so far) -/
+def stepsFrom {σ χ : Type} (M : ModelOps σ χ α) : Nat → List (Op χ α) → Explorer α → σ → List (StepView α)
+  | _, [], _, _ => []
+  | n, .cool :: ops, e, s => stepsFrom M (n + 1) ops (coolDown A e).1 s
+  | n, .try c u :: ops, e, s =>
+    let st := tryRandomChange A M e s c u
+    let s₁ := M.tryChange s c
+    { cools := n, temperature := e.temperature, valid := M.valid s₁, change := M.change s₁,
+      draw := u, decision := st.decision } :: stepsFrom M n ops st.explorer st.model
+
+def steps {σ χ : Type} (M : ModelOps σ χ α) (ops : List (Op χ α)) (e : Explorer α) (s : σ) :
+    List (StepView α) :=
+  stepsFrom A M 0 ops e s
+
 /-- the scripted model the correspondence harness uses (Go: `scriptedModel` in
 `harness/cmd/suite_kirk.go`): the choice *is* the (change, validity) pair; accepting adds
 the change to the objective value, reverting leaves it. -/
